@@ -38,7 +38,7 @@ inductive Val where
   deriving Inhabited
 
 inductive Err where
-  | typeError | keyError | indexError | queueEmpty | attributeError | valueError | structError | overflowError | adbTimeout | unsupported
+  | typeError | keyError | indexError | queueEmpty | attributeError | valueError | structError | overflowError | adbTimeout | invalidCommand | invalidChecksum | unsupported
   deriving DecidableEq, Repr, Inhabited
 
 abbrev M := Except Err
@@ -142,6 +142,15 @@ def contains (c x : Val) : M Bool :=
   | .dict l => do pure ((dlookup (← toKey x) l).isSome)
   | .tuple l => anyEq x l
   | .list l => anyEq x l
+  | _ => throw .unsupported
+
+/-- `d.get(k)` (None when the key is missing) -/
+def dictGet (d k : Val) : M Val :=
+  match d with
+  | .dict l => do
+      match dlookup (← toKey k) l with
+      | some v => pure v
+      | Option.none => pure .none
   | _ => throw .unsupported
 
 def inV (x c : Val) : M Val := do pure (.bool (← contains c x))
